@@ -62,6 +62,11 @@ type flags struct {
 }
 
 type world struct {
+	// dups: workload variant in which some uploads are duplicate uploads with a
+	// write-back delay; maxDelay is the longest delay acknowledged
+	dups     bool
+	maxDelay time.Duration
+
 	s   *simrt.Sim
 	hn  *simhttp.Net
 	be  *oc.Backend
@@ -281,7 +286,30 @@ func (w *world) client(id int, nOps int, cc blobclient.ClusterClient) {
 	for op := 0; op < nOps; op++ {
 		simrt.Sleep(time.Duration(tp.Draw(8))*time.Second + time.Duration(tp.Draw(700))*ms)
 		b := w.blobs[tp.Draw(len(w.blobs))]
-		switch k := tp.Draw(8); {
+		k := tp.Draw(8)
+		if w.dups && k <= 3 && tp.Chance(400) {
+			// this origin in the role of a replica: a neighbour origin duplicates
+			// an upload to it, asking for the write-back to be attempted after a
+			// delay (the accepting origin goes first). The acknowledgement counts
+			// like any other: the copy must stay until the backend has the blob.
+			delay := []time.Duration{0, 3 * time.Second, 20 * time.Second, 5 * time.Minute}[tp.Draw(4)]
+			// the origin may execute the request even when its response is lost, and
+			// a task stored with this delay is the one later commits of the blob join
+			if delay > w.maxDelay {
+				w.maxDelay = delay
+			}
+			err := single.DuplicateUploadBlob(namespace, b.d, bytes.NewReader(b.data), uint64(len(b.data)), delay)
+			s.Logf("client %d duplicate upload blob %d delay %v -> %s", id, b.idx, delay, errClass(err))
+			if err == nil {
+				s.Probe("ack_via_duplicate_upload")
+				if !b.acked {
+					b.acked, b.ackAt = true, s.Now()
+				}
+				w.lastOps = -1
+			}
+			continue
+		}
+		switch {
 		case k <= 3: // upload, retrying like a proxy / CI client would
 			attempts := 1 + tp.Draw(5)
 			for a := 0; a < attempts; a++ {
@@ -367,7 +395,7 @@ func observeHook(s *simrt.Sim) {
 func body(s *simrt.Sim, tier string) {
 	rand.Seed(1) // jitter of cenkalti/backoff (untransformed dependency) uses the global source
 	tp := s.Tape
-	w := &world{s: s, lastOps: -1}
+	w := &world{s: s, lastOps: -1, dups: s.Tape.Variant%3 == 1}
 	curWorld = w
 	w.hn = simhttp.Install(s)
 	tmp := kit.TempDir(s)
@@ -479,7 +507,7 @@ func body(s *simrt.Sim, tier string) {
 	// task per round. x3 per the liveness rule.
 	// Injected pauses are armed by step number and may still fire after this
 	// instant: each can delay the write-back pipeline by its duration.
-	bound := 3 * (time.Duration(nBlobs+1)*(retryIv+pollIv+3*time.Second) + time.Duration(nPauses)*maxPause)
+	bound := 3 * (time.Duration(nBlobs+1)*(retryIv+pollIv+3*time.Second) + time.Duration(nPauses)*maxPause + w.maxDelay)
 	s.Logf("faults stop at %v, bound %v", tStop, bound)
 	simrt.Sleep(bound)
 	w.check(s)
